@@ -284,6 +284,21 @@ def run(ctx) -> None:
                 code_rets.append(r)
     okc = bool(code_rets) and bool(clo_nodes) and all(all_paths_pass(hcfg.entry, r, clo_nodes, lambda a, b, l, i: l != "exc") for r in code_rets)
     rep.add("C09.R1", f"{hd.qname}:captured-values-hashed", okc, hd.loc(), f"all {len(code_rets)} code-identifying hash results include the function's captured values" if okc else "a path returns a hash of the source text / bytecode alone: functions produced by one factory (same source, different captured values) get the same definition hash and, with equal inputs, each other's cache entries")
+    # the rendering of a captured value enters the hash as it is: nothing is cut out of it or substituted in it (distinct
+    # objects whose reprs differ only in the part removed — default reprs differ only by address — would share a hash)
+    for g in sorted(clo_fs, key=lambda x: x.qname):
+        reprs = [c for c in walk_local(g.node) if isinstance(c, ast.Call) and dotted(c.func) == "repr" and c.args and "cell" in src(c.args[0])]
+        lossy = None
+        for c in reprs:
+            par = getattr(c, "_parent", None)
+            if isinstance(par, ast.Call) and c in par.args and isinstance(par.func, ast.Attribute) and par.func.attr in ("sub", "subn", "replace", "split", "strip", "lstrip", "rstrip", "partition", "rpartition", "translate", "removeprefix", "removesuffix"):
+                lossy = par
+            elif isinstance(par, ast.Attribute) and par.attr in ("replace", "split", "strip", "partition", "rpartition", "translate", "lower", "upper", "removeprefix", "removesuffix"):
+                lossy = par
+            elif isinstance(par, ast.Subscript):
+                lossy = par
+        if reprs:
+            rep.add("C09.R1", f"{g.qname}:captured-value-rendering-kept-whole", lossy is None, f"{g.module.rel}:{(lossy or g.node).lineno}", "each captured value's repr is hashed unmodified" if lossy is None else f"'{src(lossy)[:70]}' edits the rendering of a captured value before it is hashed: two nodes made by one factory that captured different objects with default reprs (or two different helper lambdas) differ only in what is removed, get one definition hash, and with equal arguments the second is served the first one's entry")
     # functions that share their source text are told apart by their code: inspect.getsource() returns the whole line
     # for a lambda, so two lambdas written on one line share it.  On the path that hashes the source, the code object
     # enters the hash at least when the function is a lambda.
